@@ -389,6 +389,12 @@ def lean_psd(ctx, prop, theorems):
     lean_lemmas(ctx, prop, "Psd.lean", theorems, "PSD lemmas (X P X^T is PSD for PSD P; sums of PSD are PSD; PSD + PD is PD; Joseph form; prior minus posterior)", "psd.mechanised")
 
 
+def lean_kalman(ctx, prop, theorems):
+    """Second, independent back end for matrix-word identities that pvx/words.py decides on the real code: the same
+    identities in an arbitrary non-commutative ring (lean/Kalman.lean)."""
+    lean_lemmas(ctx, prop, "Kalman.lean", theorems, "matrix-word identities re-proved in an arbitrary ring (second back end of the word normal form)", "words.mechanised")
+
+
 def lean_convergence(ctx, prop):
     """Stability half of Lax / Dahlquist: e(k+1) <= (1 + h L) e(k) + h tau, e(0) = 0, N h <= T  =>  e(N) <= tau (exp(L T) - 1) / L
     (lean/Convergence.lean).  Consistency (tau -> 0 with h, Taylor) and 'C^1 on a compact domain is Lipschitz' stay assumed."""
